@@ -616,6 +616,8 @@ func (o *operation) handle() {
 func (o *operation) resolveMethod(transcoder *Transcoder) error {
 	uriPath := o.request.URL.Path
 	if o.client.protocol.protocol() == ProtocolREST {
+		// Match the still-encoded path, so that captured values are unescaped exactly once.
+		uriPath = o.request.URL.EscapedPath()
 		var methods routeMethods
 		o.restTarget, o.restVars, methods = transcoder.restRoutes.match(uriPath, o.request.Method)
 		if o.restTarget != nil {
